@@ -33,9 +33,11 @@ def plan(tier, seed):
     n4 = ('a', 'b', 'c', 'd')
     if tier == 'thorough':
         for k, o in enumerate(orders(n4, tier, seed, 24)):
-            specs.append(dict(kind='all', names=n4, order=o, sample=None,
-                              lo=(k % 4) * 16384, hi=(k % 4 + 1) * 16384,
-                              sets=2000, hashseed=k))
+            for q in range(4):
+                specs.append(dict(kind='all', names=n4, order=o,
+                                  sample=None, lo=q * 16384,
+                                  hi=(q + 1) * 16384, sets=4000,
+                                  hashseed=k))
     else:
         for k, o in enumerate(dict.fromkeys(orders(n4, tier, seed, 6))):
             specs.append(dict(kind='all', names=n4, order=o, sample=3000,
